@@ -217,9 +217,20 @@ impl Scenario for Close {
                 }
             }
         }
+        // every kind of reply code and text a server may close with (no deviation: the values
+        // are what is swept here)
+        for code in [0u16, 1, 199, 200, 201, 311, 404, 541, 65535] {
+            for text in ["", "x", "CONNECTION_FORCED - broker forced connection closure with reason 'shutdown'", "gr\u{fc}\u{df} \u{2014} \u{4e16}\u{754c}"] {
+                v.push(json!({"who": "server", "after": "closeok", "stall": false, "code": code, "text": text, "codes": true}));
+            }
+        }
+        v.push(json!({"who": "server", "after": "closeok", "stall": false, "code": 320, "text": "y".repeat(255), "codes": true}));
         v
     }
     fn bound(&self, tier: &str, p: &Value) -> usize {
+        if p["codes"] == true {
+            return if tier == "thorough" { 1 } else { 0 };
+        }
         if p["fine"] == true {
             return 2;
         }
@@ -241,6 +252,7 @@ impl Scenario for Close {
         let big = p["big"] == true;
         let reopened = p["reopened"] == true;
         let code = p["code"].as_u64().unwrap() as u16;
+        let text = p["text"].as_str().unwrap_or("server says bye").to_string();
         if p["after"] == "closeok+eof" {
             broker.close_behaviour = CloseBehaviour::CloseOkThenEof;
         }
@@ -252,7 +264,7 @@ impl Scenario for Close {
         if server {
             // (after the handshake, the channel opens - twice each in the reopened variants - and
             // the first request)
-            broker.pushes.push(Push::new("conn-close", vec![conn_close_frame(code, "server says bye")]).after_frames(if p["reopened"] == true { 10 } else { 6 }));
+            broker.pushes.push(Push::new("conn-close", vec![conn_close_frame(code, &text)]).after_frames(if p["reopened"] == true { 10 } else { 6 }));
         }
         let mut cfg = EnvConfig::default();
         cfg.deliver_cuts = true;
@@ -362,7 +374,8 @@ impl Scenario for Close {
         let code = p["code"].as_u64().unwrap();
         let main = o.logs.get("main").cloned().unwrap_or_default();
         let close_res = call_results(&main).into_iter().find(|(a, _)| a == "close").map(|(_, b)| b);
-        let want_err = if server { format!("Err(ServerClosedConnection({},server says bye))", code) } else { "Err(ClientClosedConnection)".to_string() };
+        let text = p["text"].as_str().unwrap_or("server says bye").to_string();
+        let want_err = if server { format!("Err(ServerClosedConnection({},{}))", code, text) } else { "Err(ClientClosedConnection)".to_string() };
         let (envs, rest) = wire_frames(o);
         let server_closed = o.io_events.iter().any(|e| matches!(e, vh::sim::world::IoEvent::Frame(AMQPFrame::Method(0, AMQPClass::Connection(pconnection::AMQPMethod::Close(_))))));
         if server && !server_closed {
@@ -456,7 +469,7 @@ impl Scenario for Close {
         let a = o.logs.get("a").cloned().unwrap_or_default();
         if a.iter().any(|l| l == "consume -> Ok") {
             let msgs: Vec<&String> = a.iter().filter(|l| l.starts_with("consumer <- ")).collect();
-            let want = if server { format!("consumer <- ServerClosedConnection[ServerClosedConnection({},server says bye)]", code) } else { "consumer <- ClientClosedConnection".to_string() };
+            let want = if server { format!("consumer <- ServerClosedConnection[ServerClosedConnection({},{})]", code, text) } else { "consumer <- ClientClosedConnection".to_string() };
             if msgs.len() != 1 || *msgs[0] != want || !a.iter().any(|l| l == "consumer disconnected") {
                 v.push(("close:consumer-terminal".into(), format!("consumer saw {:?}, expected exactly [{}] then disconnect", msgs, want)));
             }
@@ -475,7 +488,7 @@ impl Scenario for Close {
 
 pub struct Death;
 
-fn death_session(ctx: Ctx, bound: usize, drain: bool, drop_instead: bool, dead_peer: bool) {
+fn death_session(ctx: Ctx, bound: usize, drain: bool, drop_instead: bool, unwind: bool, dead_peer: bool) {
     let tuning = ConnectionTuning::default().mem_channel_bound(bound);
     let mut conn = match open(&ctx, ConnectionOptions::default().heartbeat(2), tuning) {
         Ok(c) => c,
@@ -535,12 +548,23 @@ fn death_session(ctx: Ctx, bound: usize, drain: bool, drop_instead: bool, dead_p
     if drop_instead {
         // dropping the connection closes it too; there is no result, but when drop returns the
         // I/O thread is gone and the transport released
-        drop(conn);
+        if unwind {
+            // ... also when it goes out of scope because its owner panics
+            let r = std::panic::catch_unwind(std::panic::AssertUnwindSafe(move || {
+                let _held = conn;
+                panic!("owner failed");
+            }));
+            ctx.log(format!("owner panicked: {}", r.is_err()));
+        } else {
+            drop(conn);
+        }
         ctx.log("dropped");
+        ctx.log(format!("released {}", ctx.released()));
         return;
     }
     let r = conn.close();
     ctx.log(format!("close -> {}", res(&r)));
+    ctx.log(format!("released {}", ctx.released()));
 }
 
 impl Scenario for Death {
@@ -588,6 +612,11 @@ impl Scenario for Death {
         for fault in ["silence", "serverclose", "clientexception", "none"] {
             v.push(json!({"fault": fault, "bound": 16, "drop": true}));
         }
+        // ... and through drop while the owning thread unwinds from a panic
+        for fault in ["serverclose", "none"] {
+            v.push(json!({"fault": fault, "bound": 16, "drop": true, "unwind": true}));
+        }
+        v.push(json!({"fault": "eof", "at": 200, "bound": 16, "drop": true, "unwind": true}));
         // a peer that has gone silent and takes no more bytes either (with close and with drop)
         for bound in [1usize, 16] {
             v.push(json!({"fault": "deadpeer", "bound": bound, "dead_peer": true}));
@@ -634,11 +663,12 @@ impl Scenario for Death {
         let bound = p["bound"].as_u64().unwrap() as usize;
         let drain = p["fault"] != "none" && p["closing"] != true;
         let drop_instead = p["drop"] == true;
+        let unwind = p["unwind"] == true;
         let dead_peer = p["dead_peer"] == true;
         if dead_peer {
             cfg.no_grants = true;
         }
-        Built { broker: Box::new(broker), cfg, root: Box::new(move |ctx: Ctx| death_session(ctx, bound, drain, drop_instead, dead_peer)) }
+        Built { broker: Box::new(broker), cfg, root: Box::new(move |ctx: Ctx| death_session(ctx, bound, drain, drop_instead, unwind, dead_peer)) }
     }
     fn check(&self, p: &Value, o: &Outcome, _w: &World) -> Vec<(String, String)> {
         use vh::sim::world::IoEvent;
@@ -648,6 +678,11 @@ impl Scenario for Death {
         let opened = main.iter().any(|l| l == "open -> Ok");
         if o.io_existed && (!o.io_gone || !o.transport_dropped) {
             v.push(("death:not-released".into(), format!("session over but io_gone={} transport_dropped={}", o.io_gone, o.transport_dropped)));
+        }
+        if let Some(l) = main.iter().find(|l| l.starts_with("released ")) {
+            if l != "released io=true transport=true" {
+                v.push(("death:not-released-on-return".into(), format!("when Connection::close / drop returned: {} (main log {:?})", l, main)));
+            }
         }
         if !opened {
             if !main.iter().any(|l| l.starts_with("open -> Err")) {
